@@ -218,7 +218,13 @@ class DilCase:
                         p = End(case, i, "opn", name)
                         entry[2] = p
                         return p
-                d = self.dw[i].connector_for(name).connect(OpF())
+                if self.P.get("reuse_endpoints"):
+                    # the application keeps one client endpoint per subprotocol and connects through it repeatedly
+                    self._eps = getattr(self, "_eps", {})
+                    ep = self._eps.get((i, name)) or self._eps.setdefault((i, name), self.dw[i].connector_for(name))
+                else:
+                    ep = self.dw[i].connector_for(name)
+                d = ep.connect(OpF())
                 d.addErrback(lambda f, entry=entry: entry.__setitem__(3, f))
             elif k == "write":
                 o, a, _ = self.sub(it[1])
